@@ -12,11 +12,14 @@
 //             P<e>.<k> insertHeaderCacheEntry(header, true hash) | F<e>.<k> VbkBlock getHash/setters/flip test
 //        every result is compared with progPowHash(header, light) computed without any cache.
 //   <id> blk <seed> <ops..>                         one reused VbkBlock object: get/set/deserialise-into/assign/precalc
+//   <id> serial <seed> <iterations>                  does the ethash mutex serialise getOrDefault? (instrumented EthashCacheI)
 //   <id> powhit <threads> <seed> <n>                header-cache hit path only (no vProgPoW evaluation; TSan)
 // `!<id> ...` = a value differs from the pure function (direct oracle).
 #include <algorithm>
 #include <array>
 #include <atomic>
+#include <chrono>
+#include <condition_variable>
 #include <functional>
 #include <map>
 #include <memory>
@@ -319,6 +322,97 @@ static std::string run_pow(const std::string& id, int threads, int ethsize, size
   return g_bad ? "bad" : "ok " + std::to_string(ops.size());
 }
 
+// ---- serialisation of getOrDefault by the ethash mutex ----
+// An instrumented EthashCacheI (a real SmallLFRUCache behind an entry counter) is installed. Thread A requests a
+// header of an uncached epoch; INSIDE the factory it releases thread B and waits a bounded time; B requests a header
+// of another uncached epoch. With the mutex held around getOrDefault B blocks until A has left and max_inside == 1;
+// if B gets in while A is inside, max_inside == 2: the mutex does not serialise getOrDefault. A slow machine can only
+// hide the overlap, never fake it. The epoch entries are small synthetic light caches (the kernel and DAG code are
+// the real ones), so the scenario is cheap under TSan; results are compared with progPowHash(header, light).
+namespace altintegration { namespace progpow { std::vector<uint32_t> createDagCache(ethash_cache* light); } }
+
+struct Latch {
+  std::mutex m; std::condition_variable cv; bool set = false;
+  void signal() { { std::lock_guard<std::mutex> g(m); set = true; } cv.notify_all(); }
+  bool wait_ms(int ms) { std::unique_lock<std::mutex> g(m); return cv.wait_for(g, std::chrono::milliseconds(ms), [this] { return set; }); }
+};
+
+static std::shared_ptr<progpow::ethash_cache> fake_light(uint64_t epoch) {
+  static std::mutex mu;
+  static std::map<uint64_t, std::shared_ptr<progpow::ethash_cache>> all;
+  std::lock_guard<std::mutex> g(mu);
+  auto it = all.find(epoch);
+  if (it != all.end()) return it->second;
+  const size_t bytes = 64 * 1024;
+  uint64_t* mem = (uint64_t*)malloc(bytes);
+  for (size_t i = 0; i < bytes / 8; i++) mem[i] = mix64(epoch * 1000003ULL + i);
+  std::shared_ptr<progpow::ethash_cache> l(new progpow::ethash_cache{mem, bytes, epoch},
+                                           [](progpow::ethash_cache* c) { free(c->cache); delete c; });
+  all[epoch] = l;
+  return l;
+}
+
+struct SerialProbe : public EthashCacheI {
+  cache::SmallLFRUCache<uint64_t, CacheEntry, 2> c{};
+  std::atomic<int> inside{0}, max_inside{0}, calls{0};
+  Latch a_inside, b_entered;
+  std::shared_ptr<CacheEntry> getOrDefault(uint64_t epoch, std::function<std::shared_ptr<CacheEntry>()>) override {
+    int n = ++inside;
+    int m = max_inside.load();
+    while (n > m && !max_inside.compare_exchange_weak(m, n)) {}
+    if (n >= 2) b_entered.signal();
+    bool first = (calls++ == 0);
+    auto r = c.getOrDefault(epoch, [&]() {
+      if (first) {
+        a_inside.signal();
+        b_entered.wait_ms(300);   // bounded: with correct locking nobody can enter, the wait simply expires
+      }
+      auto e = std::make_shared<CacheEntry>();
+      e->light = fake_light(epoch);
+      e->dag = progpow::createDagCache(e->light.get());
+      return e;
+    });
+    --inside;
+    return r;
+  }
+  void clear() override { c.clear(); }
+};
+
+static std::string run_serial(const std::string& id, uint64_t seed, int iterations) {
+  g_bad = 0;
+  for (int it = 0; it < iterations; it++) {
+    auto* probe = new SerialProbe();
+    setEthashCache(std::unique_ptr<EthashCacheI>(probe));
+    setProgpowHeaderCache(std::unique_ptr<ProgpowHeaderCacheI>(new TinyHeader(8, 1)));
+    auto ha = header_of(2 * it, 1, seed), hb = header_of(2 * it + 1, 2, seed);
+    uint192 ra, rb;
+    std::thread ta([&] { ra = progPowHash(ha); });
+    std::thread tb([&] {
+      probe->a_inside.wait_ms(20000);
+      rb = progPowHash(hb);
+    });
+    ta.join();
+    tb.join();
+    auto ref = [](const std::vector<uint8_t>& h) {
+      int64_t height = ((int64_t)h[0] << 24) | (h[1] << 16) | (h[2] << 8) | h[3];
+      return progPowHash(h, fake_light(progpow::ethashGetEpoch(height)).get());
+    };
+    expect_eq(id, ra, ref(ha), "thread A result");
+    expect_eq(id, rb, ref(hb), "thread B result");
+    expect_eq(id, progPowHash(hb), ref(hb), "re-request of B's header");
+    auto hc = header_of(2 * it + 1, 3, seed);
+    expect_eq(id, progPowHash(hc), ref(hc), "another header of B's epoch");
+    if (probe->max_inside.load() > 1) {
+      g_bad++;
+      vh::oracle_fail(id, "epoch cache entered concurrently (max_inside=" + std::to_string(probe->max_inside.load()) +
+                              "): the mutex does not serialise getOrDefault");
+    }
+    // leave no pointer to the probe behind
+    setEthashCache(std::unique_ptr<EthashCacheI>(new TinyEthash<6>()));
+  }
+  return g_bad ? "bad" : "ok";
+}
+
 static std::string run_powhit(const std::string& id, int threads, uint64_t seed, int n) {
   setProgpowHeaderCache(std::unique_ptr<ProgpowHeaderCacheI>(new TinyHeader(100000, 1000)));
   const int K = 64;
@@ -366,6 +460,7 @@ int main() {
     if (op == "pow") return run_pow(id, std::stoi(a[0]), std::stoi(a[1]), std::stoul(a[2]), std::stoull(a[3]),
                                     std::vector<std::string>(a.begin() + 4, a.end()));
     if (op == "blk") return run_blk(id, std::stoull(a[0]), std::vector<std::string>(a.begin() + 1, a.end()));
+    if (op == "serial") return run_serial(id, std::stoull(a[0]), std::stoi(a[1]));
     if (op == "powhit") return run_powhit(id, std::stoi(a[0]), std::stoull(a[1]), std::stoi(a[2]));
     return "UNKNOWN-OP";
   });
